@@ -3,6 +3,10 @@
      <id> CF <n> { <hexname> <k> <value>*k }*n     cformat -> hex of the text
      <id> NS <pre2> <hexname>*                     nesting model: run, then ClosingOperators
      <id> NT <hexname>                             operator table: Allowed mask and Transition
+     <id> BA <v2> <n> <call>*n                     BuilderModel.build_ops: the operators n Builder calls append,
+                                                   given the values of their arguments; a call is
+                                                   I <dictvalue> <hexdata> | T <hex> | Q <hex> | K <arrayvalue> |
+                                                   M <hextag> | B <hextag> | P <hexname>; printed like CS
    Values use the prefix code of DESIGN.md Appendix B and are printed in canonical form.
    I/O and conversion only - no model logic. *)
 open Wire
@@ -164,6 +168,31 @@ let () =
       Printf.printf "%s rej=%d cur=%s nest=%s closers=%d closed=%s otherok=%s\n" id rej (cobj_name s.State.cur)
         (Stdlib.String.concat "" (Stdlib.List.rev_map pair_char s.State.nesting))
         (Stdlib.List.length (State.closing_ops s)) (string_of_bool closed) (string_of_bool ok_others)
+    | id :: "BA" :: v2 :: n :: rest ->
+      let rec calls n fs =
+        if n = 0 then []
+        else match fs with
+          | "I" :: fs' ->
+            let (d, fs'') = parse_value fs' in
+            (match d, fs'' with
+             | Obj.ODict es, h :: fs3 -> BuilderModel.BImage (es, bytes_of_hex h) :: calls (n - 1) fs3
+             | Obj.ONilDict, h :: fs3 -> BuilderModel.BImage ([], bytes_of_hex h) :: calls (n - 1) fs3
+             | _ -> failwith "bad image call")
+          | "T" :: h :: fs' -> BuilderModel.BShow (bytes_of_hex h) :: calls (n - 1) fs'
+          | "Q" :: h :: fs' -> BuilderModel.BShowNext (bytes_of_hex h) :: calls (n - 1) fs'
+          | "K" :: fs' ->
+            let (a, fs'') = parse_value fs' in
+            (match a with
+             | Obj.OArr l -> BuilderModel.BShowKerned l :: calls (n - 1) fs''
+             | _ -> BuilderModel.BShowKerned [] :: calls (n - 1) fs'')
+          | "M" :: h :: fs' -> BuilderModel.BPoint (bytes_of_hex h) :: calls (n - 1) fs'
+          | "B" :: h :: fs' -> BuilderModel.BMarkStart (bytes_of_hex h) :: calls (n - 1) fs'
+          | "P" :: h :: fs' -> BuilderModel.BPlain (bytes_of_hex h) :: calls (n - 1) fs'
+          | _ -> failwith "bad call list" in
+      let ops = BuilderModel.build_ops (v2 = "1") (calls (int_of_string n) rest) in
+      let b = Buffer.create 64 in
+      Stdlib.List.iter (print_op b) ops;
+      Printf.printf "%s ok %d%s\n" id (Stdlib.List.length ops) (Buffer.contents b)
     | [id; "NT"; n] ->
       let o = State.sop_of_name (bytes_of_hex n) in
       let trans = match o with
